@@ -85,19 +85,33 @@ for _op in ('swap_p1', 'route_p1_p2', 'provide_p1', 'single_sided_p1', 'withdraw
                abstractions=[ABSTRACT_PRICING_NOTE], opts={'abstract': ABSTRACT_PRICING})(_ob_pm(_op))
 
 
+CLOSING_OPS = ('create_farm', 'close_farm')      # the only operations allowed to tolerate a failure: the refund of a closed farm
+
+
 def _ob_fm(op):
     def s(I):
         b, X, v = c05.world(I)
         k = I.choose(5, 'fault_at')
         ch = Chain(I, CONTRACTS_FM)
-        ch.fault_inject = (lambda n, kind, detail: n == k) if k else None
+        hit_msg = []
+
+        def inject(n, kind, detail):
+            if n == k:
+                hit_msg.append(ch.submsgs[-1] if ch.submsgs else None)
+                return True
+            return False
+        ch.fault_inject = inject if k else None
         st, _ = c05.run(I, ch, b, op, v)
         pre = ch.last_pre
-        hit = k != 0 and ch.calls >= k
-        refund_msgs = [x for x in ch.submsgs if x[1] == 'Error']
-        for (c, mode, mid, kind, sub) in ch.submsgs:
-            I.check('farm_manager_reply_modes', mode == 'Never' or (mode == 'Error' and mid == 1 and kind == 'Bank' and sub == 'Send'))
-        if hit and not refund_msgs:
+        I.observe('status', 'ok' if st == 'ok' else 'err')
+        observe_balances(I, b, [('alice', 'uusd'), ('alice', LP1), ('bob', LP1)])
+
+        def is_refund(m):
+            (c, mode, mid, kind, sub) = m
+            return op in CLOSING_OPS and mode == 'Error' and mid == 1 and kind == 'Bank' and sub == 'Send'
+        for m in ch.submsgs:
+            I.check('farm_manager_reply_modes', m[1] == 'Never' or is_refund(m))
+        if hit_msg and not (hit_msg[0] is not None and is_refund(hit_msg[0])):
             I.cover('fault_hit')
             I.check('internal_failure_fails_the_whole_message', st != 'ok')
         if st != 'ok':
@@ -107,12 +121,29 @@ def _ob_fm(op):
     return s
 
 
+def _replay_fm_fault(op):
+    """native reproduction of `the first internal transfer fails`: the farm manager is left without the tokens it must send"""
+    starve = {'claim': 'uusd', 'withdraw_unlocked': LP1, 'emergency_open': LP1}.get(op)
+    if starve is None:
+        return None
+    inner = c05._build(op)
+
+    def build(m):
+        d = inner(m)
+        if m.get('_choices', {}).get('fault_at', 0) != 1:
+            raise ValueError('only a failure of the first internal call is reproducible natively (by starving the contract)')
+        d['mints'] = [(who, [(dn, a) for dn, a in coins if not (who == 'farm_manager' and dn == starve)]) for who, coins in d['mints']]
+        return d
+    return fm_replay(build)
+
+
 for _op in ('create_position', 'withdraw_unlocked', 'emergency_open', 'claim', 'create_farm', 'expand_farm'):
     obligation('C20', 'F2.farm_manager_%s_with_fault' % _op, entries=['execute', 'reply'], kind='S',
                statement='%s with a failure injected at the k-th internal call: sub-messages are reply-never (only close-farm refunds use reply-on-error id 1), so the '
                          'failure fails the whole message and nothing changes' % _op,
                bounds='farm-manager state of C05, fault position in {none,1,...,4}',
-               covers=['committed'] if _op in ('create_position', 'expand_farm') else ['fault_hit', 'committed'])(_ob_fm(_op))
+               covers=['committed'] if _op in ('create_position', 'expand_farm') else ['fault_hit', 'committed'],
+               replay=_replay_fm_fault(_op))(_ob_fm(_op))
 
 
 def _ob_close_refund_fails(auto):
